@@ -28,12 +28,14 @@ ASSUMPTIONS = ['ref_split in this file: N% = floor(N*size/100) in exact '
 WATCHDOG = {'quick': 900, 'thorough': 5400}
 MIN = {'quick': {'distinct': 50000,
                  'hooks': {'treeoutput.parse_split_specification': 100000,
-                           'cli.split': 60, 'own reader on part': 100},
+                           'cli.split': 120, 'own reader on part': 200},
                  'strata': {'rejected: malformed': 1000,
                             'rejected: sum exceeds size': 1000,
                             'rejected: negative': 100,
                             'remainder to first largest part': 1000,
-                            'remainder to rest': 1000}},
+                            'remainder to rest': 1000,
+                            'cli split with a reader option that changes '
+                            'the trees': 6}},
        'thorough': {'distinct': 1000000, 'hooks': {'cli.split': 1000}}}
 
 
@@ -183,6 +185,8 @@ def cli_case(ctx, case):
     src = common.write(ctx.path('.export'), codec.export_encode(bank), senc)
     dest = ctx.path('.out')
     extra = ['--src-enc', senc, '--dest-enc', denc]
+    if case.get('sopts'):
+        extra += ['--src-opts'] + case['sopts']
     if case.get('filter'):
         op, val = case['filter']
         extra += ['--trans', 'filter_by_length', '--params',
@@ -268,9 +272,15 @@ def cli_case(ctx, case):
                                              if a != b), 'length')))
         return
     if fmt in ('export', 'tigerxml'):
-        if [x[0] for x in flat] != [s['sid'] for s in keep]:
-            ctx.fail('C17:wrong-trees', case, 'sentence ids %r, expected %r'
-                     % ([x[0] for x in flat], [s['sid'] for s in keep]))
+        want_sids = [s['sid'] for s in keep]
+        if 'continuous' in (case.get('sopts') or []):
+            # the reader renumbers 1..n before anything is filtered
+            want_sids = [i + 1 for i, s in enumerate(bank)
+                         if any(s is t for t in keep)]
+        if [x[0] for x in flat] != want_sids:
+            ctx.fail('C17:wrong-trees', case, 'sentence ids %r, expected %r '
+                     '(reader options %r)' % ([x[0] for x in flat], want_sids,
+                                              case.get('sopts')))
             return
     # every part is accepted by the tool's own reader of that format
     if fmt != 'terminals':
@@ -300,6 +310,8 @@ def cli_case(ctx, case):
         ctx.stratum('cli source and destination encodings differ')
     if 0 in exp:
         ctx.stratum('cli with an empty part')
+    if case.get('sopts') and bank and bank[0]['sid'] != 1:
+        ctx.stratum('cli split with a reader option that changes the trees')
 
 
 def make_cli_case(rng):
@@ -314,6 +326,10 @@ def make_cli_case(rng):
     bank = [gen.tree(rng, rng.randint(1, 7), pools,
                      moves=0 if fmt == 'brackets' else rng.choice([0, 1, 2]),
                      sid=i + 1) for i in range(k)]
+    sid0 = rng.choice([0, 0, 4, 40])
+    if sid0:
+        for i, s in enumerate(bank):
+            s['sid'] = sid0 + 2 * i
     nparts = rng.randint(1, 4)
     vals = []
     for _ in range(nparts):
@@ -332,6 +348,8 @@ def make_cli_case(rng):
             'senc': senc, 'denc': denc}
     if rng.random() < 0.3:
         case['filter'] = [rng.choice(['lt', 'gt', 'eq']), rng.randint(1, 6)]
+    if rng.random() < 0.4:
+        case['sopts'] = ['continuous']
     return case
 
 
@@ -351,7 +369,7 @@ def shard(ctx):
     if ctx.shard == 0:
         ctx.sample({'sweep': 'all specs of <= %d parts over %r'
                     % (4 if thorough else 3, GRID), 'sizes': sizes[:5] + ['...']})
-    for i in ctx.indices(ctx.pick(80, 1500)):
+    for i in ctx.indices(ctx.pick(160, 1500)):
         rng = ctx.rng('cli', i)
         case = make_cli_case(rng)
         cli_case(ctx, case)
